@@ -255,26 +255,27 @@ func c04Case(c *Ctx, fn *ssa.Function, b *ana.Builder) {
 		if cal := ana.StaticRepoCallee(ci.Common()); cal != nil {
 			pb := ana.NewBuilder(c.P, cal)
 			for _, fold := range []string{"strings.ToLower", "strings.ToUpper"} {
-				diff := edgesMatching(pb, "bin<!=>(index(call<"+fold+">(p0), ext#1(next(range(p0)))), index(p0, ext#1(next(range(p0)))))",
-					"bin<!=>(index(p0, ext#1(next(range(p0)))), index(call<"+fold+">(p0), ext#1(next(range(p0)))))")
-				if len(diff) == 0 {
-					continue
-				}
-				ok := true
-				for _, e := range ana.Exits(cal) {
-					if e.Panic {
+				// the probe's exits, looking through a shared "first difference" helper it may tail-call
+				idx := "alt(ext#1(next(range(p0))), ind<+1>(0))"
+				pats := []string{"bin<!=>(index(call<" + fold + ">(p0), " + idx + "), index(p0, " + idx + "))"}
+				ok, any := true, false
+				for _, v := range c.vexits(pb) {
+					if v.Panic {
 						ok = false
 						continue
 					}
-					t := pb.Of(e.Results[0], e.Instr)
+					t := v.Results[0]
 					if t.String() == "-1" {
 						continue
 					}
-					if t.String() != "ext#1(next(range(p0)))" || !mustPass(cal, e.Instr.Block(), plainEdges(diff)) {
+					inner := v.Frames[len(v.Frames)-1]
+					found := len(edgesMatching(inner.B, pats...)) > 0
+					if !found || !matches(idx, t) || !c.vpasses(v, pats...) {
 						ok = false
 					}
+					any = any || found
 				}
-				if ok {
+				if ok && any {
 					probes[fold] = cal
 					r.Fn(ana.ShortFunc(cal))
 				}
